@@ -19,8 +19,13 @@ Inductive extk := EFmt (f : fmtc) | EDat.
 Definition fkey := (nat * extk * bool)%type.
 
 (* A stream is an object the CALLER owns: besides its text it has a state the caller relies on after
-   the call -- still open, and positioned after the text (so that the next write lands behind it). *)
-Inductive sstate := SOpenAtEnd | SOpenElsewhere | SClosed.
+   the call -- still open, and its POSITION.  The caller may hand over a stream that already holds text and
+   is positioned anywhere in it (a StringIO built from a string, a stream rewound to be overwritten, a
+   file opened "r+"): a writer writes AT the position, over what lies there, exactly as the class-level
+   writer does with the same stream -- it does not jump to the end first.
+   SOpenAt p = open, positioned behind the first p records; SOpenElsewhere = open but inside a record
+   (never specified, only observed); SClosed. *)
+Inductive sstate := SOpenAt (pos : nat) | SOpenElsewhere | SClosed.
 
 Record world := mk_world { w_files : list (fkey * text); w_streams : list (nat * text);
                            w_sstate : list (nat * sstate) }.
@@ -31,7 +36,8 @@ Inductive op :=
     (* the entry point c_verb c in configuration c; slot = number of the file (load, load_all, dump to a
        path), of the stream (dump to a stream) or of the document held by the string (loads, loads_all);
        (o, v) = the object and its current version (dump, dumps); md = open mode of a path target *)
-| ORewrite (k : fkey) (d : nat).      (* the environment replaces the content of file k by document d *)
+| ORewrite (k : fkey) (d : nat)       (* the environment replaces the content of file k by document d *)
+| OSeek (s : nat) (p : nat).          (* the caller repositions its stream s behind its first p records *)
 
 Definition ext_of (c : cell) : extk := match c_fsrc c with FsSuffix => EFmt (c_fmt c) | FsExplicit => EDat end.
 Definition fkey_of (c : cell) (slot : nat) : fkey := (slot, ext_of c, c_dot c).
@@ -55,29 +61,44 @@ Definition set_file (w : world) (k : fkey) (t : text) : world :=
 Definition get_stream (w : world) (s : nat) : text := assoc_get Nat.eqb [] (w_streams w) s.
 Definition set_stream (w : world) (s : nat) (t : text) : world :=
   mk_world (w_files w) (assoc_set Nat.eqb (w_streams w) s t) (w_sstate w).
-Definition get_sstate (w : world) (s : nat) : sstate := assoc_get Nat.eqb SOpenAtEnd (w_sstate w) s.
-(* every stream the caller holds is open and positioned after its text *)
-Definition streams_ready (w : world) : bool :=
-  forallb (fun p => match snd p with SOpenAtEnd => true | _ => false end) (w_sstate w).
+Definition get_sstate (w : world) (s : nat) : sstate := assoc_get Nat.eqb SClosed (w_sstate w) s.
+Definition set_sstate (w : world) (s : nat) (q : sstate) : world :=
+  mk_world (w_files w) (w_streams w) (assoc_set Nat.eqb (w_sstate w) s q).
+Definition is_open (q : sstate) : bool := match q with SOpenAt _ => true | _ => false end.
+(* every stream the caller holds is open and positioned on a record boundary *)
+Definition streams_ready (w : world) : bool := forallb (fun p => is_open (snd p)) (w_sstate w).
+(* writing the records x at position p of a text: what lies before p stays, the records under x are
+   replaced, what lies behind stays (p = length t: plain appending) *)
+Definition write_at (t : text) (p : nat) (x : text) : text := firstn p t ++ x ++ skipn (p + length x) t.
 
 (* What one call returns: the action of the one-shot matrix, and the text the class-level codec
    consumed (readers) / the identity and version of the object rendered (dumps). *)
 Definition result := (action * option text)%type.
 
-(* No entry point ever changes the STATE of a stream of the caller (`w_sstate` is carried through
-   untouched): a dump that succeeds leaves the stream open behind the text it appended, a call that is
-   REFUSED (unsupported format / parser, no format) leaves the whole world as it was -- in particular
-   the stream it was given stays open, holds what it held, and stays where it was. *)
+(* No entry point ever closes a stream of the caller or moves one it was not given: a dump that succeeds
+   writes its record AT the position of the stream given and leaves it open right behind that record, a
+   call that is REFUSED (unsupported format / parser, no format) leaves the whole world as it was -- in
+   particular the stream it was given stays open, holds what it held, and stays where it was. *)
 Definition step (w : world) (x : op) : world * result :=
   match x with
   | ORewrite k d => (set_file w k [TDoc d], (ANothing, None))
+  | OSeek s p =>
+      (match get_sstate w s with
+       | SOpenAt _ => set_sstate w s (SOpenAt (Nat.min p (length (get_stream w s))))
+       | _ => w
+       end, (ANothing, None))
   | OCall c slot o v md =>
       let a := spec c in
       let k := fkey_of c slot in
       match c_verb c, a with
       | (VLoad | VLoadAll), ARet _ => (w, (a, Some (get_file w k)))
       | (VLoads | VLoadsAll), ARet _ => (w, (a, Some [TDoc slot]))
-      | VDump, AWrote m SGivenStream true => (set_stream w slot (get_stream w slot ++ [TW m o v]), (a, None))
+      | VDump, AWrote m SGivenStream true =>
+          match get_sstate w slot with
+          | SOpenAt p =>
+              (set_sstate (set_stream w slot (write_at (get_stream w slot) p [TW m o v])) slot (SOpenAt (S p)), (a, None))
+          | _ => (w, (a, None))         (* a stream the caller cannot use: outside the specification *)
+          end
       | VDump, AWrote m SOpenedPath true =>
           (set_file w k ((match md with MAppend => get_file w k | MTrunc => [] end) ++ [TW m o v]), (a, None))
       | VDumps, ARet (RDumps m) => (w, (a, Some [TW m o v]))
@@ -116,7 +137,11 @@ Definition result_eqb (a b : result) : bool :=
   action_eqb (fst a) (fst b) &&
   match snd a, snd b with Some s, Some t => text_eqb s t | None, None => true | _, _ => false end.
 Definition sstate_eqb (a b : sstate) : bool :=
-  match a, b with SOpenAtEnd, SOpenAtEnd | SOpenElsewhere, SOpenElsewhere | SClosed, SClosed => true | _, _ => false end.
+  match a, b with
+  | SOpenAt p, SOpenAt q => Nat.eqb p q
+  | SOpenElsewhere, SOpenElsewhere | SClosed, SClosed => true
+  | _, _ => false
+  end.
 Definition obs_eqb (a b : obs) : bool :=
   result_eqb (ob_res a) (ob_res b) && list_eqb text_eqb (ob_files a) (ob_files b)
   && list_eqb text_eqb (ob_streams a) (ob_streams b)
